@@ -168,14 +168,23 @@ class Bit(_PrimitiveType, metaclass=_MetaBit):
 
     @_intrinsic
     def __or__(self, other: Bit) -> Bit:
+        if not isinstance(other, Bit):
+            return NotImplemented
+
         return Bit(self._val | other._val)
 
     @_intrinsic
     def __and__(self, other: Bit) -> Bit:
+        if not isinstance(other, Bit):
+            return NotImplemented
+
         return Bit(self._val & other._val)
 
     @_intrinsic
     def __xor__(self, other: Bit) -> Bit:
+        if not isinstance(other, Bit):
+            return NotImplemented
+
         return Bit(self._val ^ other._val)
 
     @_intrinsic
